@@ -2,16 +2,16 @@
    Statements only; every proof is `exact <lemma of StubsProofs>`.  The model (Stubs.v) is a
    transliteration of client/stub/load_balance.rs and client/stub/retry.rs; the correspondence
    check ties it to the code on every run. *)
-From Coq Require Import List NArith Arith.
+From Coq Require Import List NArith ZArith Arith.
 Import ListNotations.
 From TarpcV Require Import Stubs StubsProofs.
 Local Open Scope N_scope.
 
 (* The monitor for C20 accepts every run of every stub: round robin over any b >= 1 backends and
    any mix of single calls and concurrent bursts of fewer than 2^64 calls in total (every pick
-   valid, the caller's request passed on, per-backend counts never more than one apart);
+   valid, the caller's context and request passed on unchanged, per-backend counts never more than one apart);
    consistent hash with ANY hasher function (picks valid, equal requests -> equal picks);
-   retry with ANY policy and any result scripts (same request every time, attempts 1, 2, 3, ..,
+   retry with ANY policy and any result scripts (same context and same request every time, attempts 1, 2, 3, ..,
    the policy sees each result, the first declined result is returned unchanged). *)
 Theorem C20_monitor : forall c ops, wf c ops -> c20_ok c ops (fst (run c ops)) = true.
 Proof. exact c20_monitor_holds. Qed.
@@ -49,37 +49,60 @@ Proof. exact c20_consistent_hash_deterministic. Qed.
 (* retry: for every policy pol and every backend behaviour, if k >= 1 is the first attempt the
    policy declines (k below the u32 range; one less when the caller is compiled with overflow
    checks, because RangeFrom computes the successor before handing out the value), then the run
-   is exactly: calls 0..k-1 each with the same request rq, the policy shown (result of call j,
+   is exactly: calls 0..k-1 each with the caller's context c and the same request rq, the policy shown (result of call j,
    attempt j+1), and the k-th result returned unchanged. *)
-Theorem C20_retry : forall (ovf : bool) (pol : sres -> N -> bool) (backend : nat -> sres) rq k fuel,
+Theorem C20_retry : forall (ovf : bool) (pol : sres -> N -> bool) (backend : nat -> sres) c rq k fuel,
   (1 <= k)%nat -> (k <= fuel)%nat ->
   N.of_nat k < (if ovf then W32 - 1 else W32) ->
   (forall j, (j < k - 1)%nat -> pol (backend j) (N.of_nat (S j)) = true) ->
   pol (backend (k - 1)%nat) (N.of_nat k) = false ->
-  retry fuel ovf pol backend rq = retry_trace pol backend rq k.
+  retry fuel ovf pol backend c rq = retry_trace pol backend c rq k.
 Proof. exact c20_retry. Qed.
 
 (* the bound on k is necessary: without overflow checks the u32 attempt counter wraps and the
    policy is shown attempt number 0 at the 2^32-th attempt *)
 Theorem C20_retry_wrap_refuted :
-  exists pol backend fuel rq res, In (OPol res 0 false) (retry fuel false pol backend rq).
+  exists pol backend fuel c rq res, In (OPol res 0 false) (retry fuel false pol backend c rq).
 Proof. exact c20_retry_wrap_refuted. Qed.
 
-(* non-vacuity: concrete runs of the three stubs, and traces the monitor rejects *)
+(* The caller's context follows the call.  Retry: for every policy, every behaviour of the inner
+   stub, every number of attempts (any fuel; no bound on k needed) and both overflow modes, every
+   call of the inner stub carries exactly the context (trace id, span id, sampling decision,
+   deadline) and the request Retry::call was given. *)
+Theorem C20_retry_same_context :
+  forall (ovf : bool) (pol : sres -> N -> bool) (backend : nat -> sres) fuel c rq c' rq' res,
+  In (OCall c' rq' res) (retry fuel ovf pol backend c rq) -> c' = c /\ rq' = rq.
+Proof. exact c20_retry_same_context. Qed.
+
+(* Load balancers: for every configuration (any backend count, any cursor value, any hasher), the
+   backend chosen for a call receives exactly the caller's context and request. *)
+Theorem C20_balance_same_context : forall cf cur c rq k c' rq' resp,
+  In (OPick k c' rq' resp) (snd (step cf cur (Call c rq))) -> c' = c /\ rq' = rq.
+Proof. exact c20_balance_same_context. Qed.
+
+(* non-vacuity: concrete runs of the three stubs, and traces the monitor rejects (wrong backend,
+   unequal picks for equal requests, wrong attempt number, and -- last two -- a second attempt /
+   a backend that is handed a context other than the caller's) *)
+Definition c1 : cx := mkcx 7 3 true 5000%Z.
+Definition c0 : cx := mkcx 0 0 false 5000%Z.
 Example C20_nonvacuous :
-  fst (run (CRR 3) [Call 5; Par [2%nat; 1%nat]; Call 6])
-  = [[OPick 0 5 (SOk 1005)]; [OCounts [1; 1; 1]]; [OPick 1 6 (SOk 2006)]]
-  /\ c20_ok (CRR 3) [Call 5; Call 6] [[OPick 0 5 (SOk 1005)]; [OPick 0 6 (SOk 1006)]] = false
-  /\ fst (run (CCH 3 (hash_of HFnv)) [Call 5; Call 9; Call 5])
-     = [[OPick 2 5 (SOk 3005)]; [OPick 1 9 (SOk 2009)]; [OPick 2 5 (SOk 3005)]]
-  /\ c20_ok (CCH 3 (hash_of HFnv)) [Call 5; Call 5]
-       [[OPick 2 5 (SOk 3005)]; [OPick 1 5 (SOk 2005)]] = false
-  /\ fst (run (CRetry (pol_eval (PErrLt 3)) 10 true) [RCall 7 [SDeadline; SServer 4; SShutdown; SOk 1]])
-     = [[OCall 7 SDeadline; OPol SDeadline 1 true; OCall 7 (SServer 4); OPol (SServer 4) 2 true;
-         OCall 7 SShutdown; OPol SShutdown 3 false; ODone SShutdown]]
-  /\ c20_ok (CRetry (pol_eval PErr) 10 true) [RCall 7 [SDeadline; SOk 1]]
-       [[OCall 7 SDeadline; OPol SDeadline 1 true; OCall 7 (SOk 1); OPol (SOk 1) 3 false;
-         ODone (SOk 1)]] = false.
+  fst (run (CRR 3) [Call c1 5; Par [2%nat; 1%nat]; Call c0 6])
+  = [[OPick 0 c1 5 (SOk 1005)]; [OCounts [1; 1; 1]]; [OPick 1 c0 6 (SOk 2006)]]
+  /\ c20_ok (CRR 3) [Call c1 5; Call c1 6] [[OPick 0 c1 5 (SOk 1005)]; [OPick 0 c1 6 (SOk 1006)]] = false
+  /\ fst (run (CCH 3 (hash_of HFnv)) [Call c1 5; Call c0 9; Call c1 5])
+     = [[OPick 2 c1 5 (SOk 3005)]; [OPick 1 c0 9 (SOk 2009)]; [OPick 2 c1 5 (SOk 3005)]]
+  /\ c20_ok (CCH 3 (hash_of HFnv)) [Call c1 5; Call c1 5]
+       [[OPick 2 c1 5 (SOk 3005)]; [OPick 1 c1 5 (SOk 2005)]] = false
+  /\ fst (run (CRetry (pol_eval (PErrLt 3)) 10 true) [RCall c1 7 [SDeadline; SServer 4; SShutdown; SOk 1]])
+     = [[OCall c1 7 SDeadline; OPol SDeadline 1 true; OCall c1 7 (SServer 4); OPol (SServer 4) 2 true;
+         OCall c1 7 SShutdown; OPol SShutdown 3 false; ODone SShutdown]]
+  /\ c20_ok (CRetry (pol_eval PErr) 10 true) [RCall c1 7 [SDeadline; SOk 1]]
+       [[OCall c1 7 SDeadline; OPol SDeadline 1 true; OCall c1 7 (SOk 1); OPol (SOk 1) 3 false;
+         ODone (SOk 1)]] = false
+  /\ c20_ok (CRetry (pol_eval PErr) 10 true) [RCall c1 7 [SDeadline; SOk 1]]
+       [[OCall c1 7 SDeadline; OPol SDeadline 1 true; OCall c0 7 (SOk 1); OPol (SOk 1) 2 false;
+         ODone (SOk 1)]] = false
+  /\ c20_ok (CRR 3) [Call c1 5] [[OPick 0 c0 5 (SOk 1005)]] = false.
 Proof. vm_compute. repeat split; reflexivity. Qed.
 
 Print Assumptions C20_monitor.
@@ -90,3 +113,5 @@ Print Assumptions C20_consistent_hash_valid.
 Print Assumptions C20_consistent_hash_deterministic.
 Print Assumptions C20_retry.
 Print Assumptions C20_retry_wrap_refuted.
+Print Assumptions C20_retry_same_context.
+Print Assumptions C20_balance_same_context.
